@@ -35,3 +35,11 @@ add("C17", "exploration",
     "the user options alone and together; transport segmentation, end of line and read size are sampled. The device is a model derived from each definition "
     "plus a validated canonical prompt table: the claim is that definitions, loader, variant merge and driver are mutually consistent and drive such a device.",
     "DESIGN.md §3 C17 + Appendix A", "invariant monitors over every loaded platform definition (independent yaml.v3 reading) + real network.Driver against a definition-derived CLI device model; device-side line logs vs reference interpreter")
+
+add("C13", "exploration",
+    "Exploration. For every position pattern of {no failure string, failure string in force, decoy} over command lists of length <= 4 (quick) / <= 5-6 (thorough), "
+    "crossed with 13 driver-level x operation-level failure-list combinations, stop-on-failed on/off and all nine generic/network send-commands / send-configs / "
+    "send-config / from-file entry points, the real library's Response.Failed, MultiResponse.Failed with its Operations list, the collapsed SendConfig response and "
+    "the lines the device model actually received are compared with a reference computed from the device's own output and the list in force; random longer lists and "
+    "hostile placements (split across reads, broken by escape/CR, echo-only, case variant) included. Not a proof: only the modelled device behaviours were exercised.",
+    "DESIGN.md §3 C13", "real generic/network drivers against a causal two-mode CLI device model; reference contains-any over rendered output vs Failed flags, aggregate/collapsed errors and the device's received-line log")
